@@ -89,6 +89,17 @@ def variants(d, rng, formula=""):
         p = rng.permutation(n)
         out.append(("row permutation", d.iloc[p].reset_index(drop=True), p))
     out.append(("reversed rows, index kept", d.iloc[::-1], np.arange(n)[::-1]))
+    # rows stored in increasing order of a covariate (parameter estimates must not depend on the storage order)
+    for v in ("x", "z"):
+        p = np.argsort(d[v].values, kind="stable")
+        out.append((f"rows sorted by {v}", d.iloc[p].reset_index(drop=True), p))
+    # a NAMED index: named like a column the formula uses, like an unused column, or like a variable of the calling environment;
+    # and a used column promoted to index while staying a column
+    for nm in ("x", "g", "unused", "by", "wgt"):
+        e = d.copy()
+        e.index = pd.Index(list(rng.permutation(n)), name=nm)
+        out.append((f"index named {nm!r}", e, None))
+    out.append(("set_index('g', drop=False)", d.set_index("g", drop=False), None))
     for name, idx in (("string index", [f"r{i}" for i in range(n)]), ("float index", list(np.linspace(3, -3, n))),
                       ("non-unique index", [i // 3 for i in range(n)]), ("constant index", [7] * n),
                       ("shuffled integer index", list(rng.permutation(n)))):
@@ -145,7 +156,10 @@ def PROOFS():
     return [("vf.contracts.design_c", design_c.FUNCTIONS),
             ("vf.contracts.variable_c", ["formulae.terms.variable.Variable.eval_categoric", "formulae.terms.call.Call.eval_categoric"]),
             # stateless transforms return positional arrays computed row by row (no index labels to align on)
-            ("vf.contracts.transforms_c", ["formulae.transforms.binary"])]
+            ("vf.contracts.transforms_c", ["formulae.transforms.binary",
+                                           # parameter estimates: functions of the data vector as a whole (mean, std, percentiles, min/max)
+                                           "formulae.transforms.Center.__call__", "formulae.transforms.Scale.__call__",
+                                           "formulae.transforms.BSpline._initialize"])]
 
 
 def run(report, findings):
